@@ -1,92 +1,124 @@
 (** C07 - Authored transactions conserve value and pay at least the requested
     fee rate.  Property theorems only; proofs are in Fee/FeeProofs.v.
 
-    The theorems are about [author generated_cfg], the model instantiated with
-    what wallet/txsizes, wallet/txrules and wallet/txauthor say NOW
-    (Generated/TxsizesConsts.v).  Three regenerated facts are discharged here by
-    computation ([eq_refl]); when the source makes one of them false this file
-    stops compiling and the check reports the broken obligation:
-      - [consts_exact]            the size constants are the worst-case signed sizes,
-                                  rates are per 1000 bytes, the relay floor is 1000;
+    The theorems are about [author generated_cfg] (txauthor.NewUnsignedTransaction
+    over the wallet's two input sources) and [wallet_author] (the wallet-level
+    function of wallet/createtx.go and wallet/psbt.go: change source, authoring
+    loop, RandomizeChangePosition), the model instantiated with what
+    wallet/txsizes, wallet/txrules, wallet/txauthor and wallet/createtx.go say
+    NOW (Generated/TxsizesConsts.v).  The regenerated facts are discharged here
+    by computation ([eq_refl]); when the source makes one of them false this
+    file stops compiling and the check reports the broken obligation:
+      - [consts_sane]             the size constants are sizes (>= 0), fee rates are per
+                                  1000 bytes, the relay floor is at least 1000 sat/kvB;
+      - [sizes_cover]             INEQUALITIES only: what EstimateVirtualSize allots to one
+                                  input of each kind is at least the proven worst-case weight
+                                  of a signed input of that kind, the witness part is rounded
+                                  up (a MORE conservative constant keeps every theorem);
+      - [relay_floor_exact]       only for the upper bound of the fee ("plus one dust
+                                  threshold" is the network's threshold at 1000 sat/kvB);
+      - [change_sizes_cover]      the wallet's change source never declares a script size
+                                  below the length of the script it produces;
       - [varint_counts_change]    EstimateVirtualSize takes the compact-size of the
                                   output count over the count INCLUDING the change output;
       - [init_guess_minimal]      the first size guess of NewUnsignedTransaction is not
-                                  larger than the estimate for any single input. *)
+                                  larger than the estimate for any single input.
+
+    Signature hypothesis ([admissible unc], exact): every ECDSA input carries a DER
+    signature of at most 72 bytes (71 for a P2PKH input of a transaction that also has
+    witness inputs; btcec signs low-S: at most 71) plus the sighash byte and a 33-byte
+    compressed public key; a P2TR key spend a Schnorr signature of at most 65 bytes.
+    A P2PKH input signed with an UNCOMPRESSED 65-byte key is admissible only if
+    [unc = p2pkh_covers_uncompressed] is true - it is false for the current constants,
+    and [C07_uncompressed_key_refuted] shows that the bound then fails (known finding:
+    fee_below_rate_uncompressed_key). *)
+From Coq Require Import Permutation.
 From Verif Require Import Base.Prelude Generated.TxsizesConsts Fee.Fee Fee.FeeProofs.
 Local Open Scope Z_scope.
 
 (** Well-formed requests: script lengths and the requested total are
-    non-negative, the change script has the declared, positive length. *)
-Definition request_ok (outs : list txout) (chg : Z) : Prop :=
-  outs_wf outs /\ 0 <= sum_values outs /\ 0 < chg.
+    non-negative, the declared change script length is positive and not below
+    the real one. *)
+Definition request_ok (outs : list txout) (chg chgr : Z) : Prop :=
+  outs_wf outs /\ 0 <= sum_values outs /\ 0 < chg /\ 0 <= chgr <= chg.
+
+Definition wrequest_ok (outs : list txout) : Prop := outs_wf outs /\ 0 <= sum_values outs.
+
+(** ** txauthor.NewUnsignedTransaction over makeInputSource ([fixed = false])
+       or constantInputSource ([fixed = true]) *)
 
 (** The loop of NewUnsignedTransaction ends within |coins| + 1 rounds. *)
-Theorem C07_terminates : forall outs rate chg chgwit coins,
-  request_ok outs chg -> 0 <= rate ->
-  author generated_cfg outs rate chg chgwit coins <> OutOfFuel /\
-  match author generated_cfg outs rate chg chgwit coins with
+Theorem C07_terminates : forall fixed outs rate chg chgr chgwit coins,
+  request_ok outs chg chgr -> 0 <= rate ->
+  author generated_cfg fixed outs rate chg chgr chgwit coins <> OutOfFuel /\
+  match author generated_cfg fixed outs rate chg chgr chgwit coins with
   | Success a => (a_rounds a <= length coins + 1)%nat
   | InsufficientFunds r => (r <= length coins + 1)%nat
   | OutOfFuel => True
   end.
 Proof.
-  intros outs rate chg chgwit coins (Ho & Hv & Hc) Hr. split.
-  - apply (author_terminates generated_cfg outs rate chg chgwit coins eq_refl Ho Hv Hc Hr).
+  intros fixed outs rate chg chgr chgwit coins (Ho & Hv & Hc & Hr) Hrate. split.
+  - apply (author_terminates generated_cfg fixed outs rate chg chgr chgwit coins eq_refl Ho Hv Hc Hrate).
     exact (proj1 (init_minimal_spec generated_cfg eq_refl)).
-  - exact (author_rounds generated_cfg outs rate chg chgwit coins).
+  - exact (author_rounds generated_cfg fixed outs rate chg chgr chgwit coins).
 Qed.
 Print Assumptions C07_terminates.
 
-(** Success keeps the requested outputs unchanged and in order; a change
-    output is only ever appended, at index [length outs]; the inputs are a
-    prefix of the offered arrangement. *)
-Theorem C07_outputs_kept : forall outs rate chg chgwit coins a,
-  request_ok outs chg ->
-  author generated_cfg outs rate chg chgwit coins = Success a ->
+(** Success keeps the requested outputs unchanged; txauthor appends the change
+    output; the inputs are a prefix of the offered arrangement (the whole of an
+    explicit selection) and the total the input source reported is the sum of
+    THEIR values. *)
+Theorem C07_outputs_kept : forall fixed outs rate chg chgr chgwit coins a,
+  request_ok outs chg chgr ->
+  author generated_cfg fixed outs rate chg chgr chgwit coins = Success a ->
   firstn (length outs) (a_outs a) = outs /\
   match a_change a with
-  | Some c => a_outs a = outs ++ [mkOut c chg] /\ a_change_index a = Some (length outs)
+  | Some c => a_outs a = outs ++ [mkOut c chgr] /\ a_change_index a = Some (length outs)
   | None => a_outs a = outs /\ a_change_index a = None
   end /\
-  (exists rest, coins = a_inputs a ++ rest) /\ a_total_in a = sum_coins (a_inputs a).
+  (exists rest, coins = a_inputs a ++ rest) /\ a_total_in a = sum_coins (a_inputs a) /\
+  (fixed = true -> a_inputs a = coins).
 Proof.
-  intros outs rate chg chgwit coins a (Ho & Hv & Hc) H.
-  pose proof (success_outputs generated_cfg outs rate chg chgwit coins a H) as (H1 & H2).
-  pose proof (success_inputs generated_cfg outs rate chg chgwit coins a H) as (H3 & H4).
-  repeat split; assumption.
+  intros fixed outs rate chg chgr chgwit coins a _ H.
+  pose proof (success_outputs generated_cfg fixed outs rate chg chgr chgwit coins a H) as (H1 & H2).
+  pose proof (success_inputs generated_cfg fixed outs rate chg chgr chgwit coins a H) as (H3 & H4).
+  repeat split; try assumption. intros ->. exact (author_fixed_inputs _ _ _ _ _ _ _ _ H).
 Qed.
 Print Assumptions C07_outputs_kept.
 
-(** Inputs total exactly outputs plus fee; the fee is the required fee for the
-    estimated size of exactly this transaction when there is a change output,
-    and at least that otherwise. *)
-Theorem C07_value_conserved : forall outs rate chg chgwit coins a,
-  request_ok outs chg ->
-  author generated_cfg outs rate chg chgwit coins = Success a ->
-  sum_coins (a_inputs a) = sum_values (a_outs a) + paid_fee a /\
+(** The values of the coins spent total exactly the outputs plus the fee of the
+    transaction; the fee is the required fee for the estimated size of exactly
+    this transaction when there is a change output, and at least that otherwise. *)
+Theorem C07_value_conserved : forall fixed outs rate chg chgr chgwit coins a,
+  request_ok outs chg chgr ->
+  author generated_cfg fixed outs rate chg chgr chgwit coins = Success a ->
+  sum_coins (a_inputs a) = sum_values (a_outs a) + tx_fee a /\
   sum_values (a_outs a) = sum_values outs + match a_change a with Some c => c | None => 0 end /\
   match a_change a with
-  | Some _ => paid_fee a = a_req_fee a
-  | None => a_req_fee a <= paid_fee a
+  | Some _ => tx_fee a = a_req_fee a
+  | None => a_req_fee a <= tx_fee a
   end.
 Proof.
-  intros outs rate chg chgwit coins a _ H.
-  exact (success_conservation generated_cfg outs rate chg chgwit coins a H).
+  intros fixed outs rate chg chgr chgwit coins a _ H.
+  rewrite (success_tx_fee generated_cfg fixed outs rate chg chgr chgwit coins a H).
+  exact (success_conservation generated_cfg fixed outs rate chg chgr chgwit coins a H).
 Qed.
 Print Assumptions C07_value_conserved.
 
 (** The fee is no lower than the requested rate applied to the REAL signed
     virtual size: for every number of requested outputs, every mix of input
-    kinds and every admissible assignment of signature lengths. *)
-Theorem C07_fee_covers_real_size : forall outs rate chg chgwit coins a sigs,
-  request_ok outs chg -> default_relay_fee_per_kb <= rate ->
-  author generated_cfg outs rate chg chgwit coins = Success a ->
+    kinds and every admissible assignment of signature and key lengths. *)
+Theorem C07_fee_covers_real_size : forall fixed outs rate chg chgr chgwit coins a sigs,
+  request_ok outs chg chgr -> default_relay_fee_per_kb <= rate ->
+  author generated_cfg fixed outs rate chg chgr chgwit coins = Success a ->
   length sigs = length (a_inputs a) ->
-  admissible (combine (map fst (a_inputs a)) sigs) ->
-  fee_for rate (real_vsize (combine (map fst (a_inputs a)) sigs) (a_outs a)) <= paid_fee a.
+  admissible p2pkh_covers_uncompressed (mk_sinputs (map fst (a_inputs a)) sigs) ->
+  fee_for rate (real_vsize (mk_sinputs (map fst (a_inputs a)) sigs) (a_outs a)) <= tx_fee a.
 Proof.
-  intros outs rate chg chgwit coins a sigs (Ho & Hv & Hc) Hr H Hl Ha.
-  exact (success_fee_covers_real generated_cfg outs rate chg chgwit coins eq_refl Ho Hc a H sigs eq_refl Hr Hl Ha).
+  intros fixed outs rate chg chgr chgwit coins a sigs (Ho & Hv & Hc & Hr0 & Hr1) Hr H Hl Ha.
+  rewrite (success_tx_fee generated_cfg fixed outs rate chg chgr chgwit coins a H).
+  exact (success_fee_covers_real generated_cfg fixed outs rate chg chgr chgwit coins eq_refl Ho Hc Hr0 a H
+           p2pkh_covers_uncompressed sigs eq_refl Hr1 eq_refl Hr Hl Ha).
 Qed.
 Print Assumptions C07_fee_covers_real_size.
 
@@ -103,53 +135,181 @@ Print Assumptions C07_fee_for_is_rate_times_size.
     exactly this transaction (its inputs, the requested outputs, one change
     output) plus one dust threshold of the change script; with a change output
     it is exactly the former. *)
-Theorem C07_fee_upper_bound : forall outs rate chg chgwit coins a,
-  request_ok outs chg ->
-  author generated_cfg outs rate chg chgwit coins = Success a ->
+Theorem C07_fee_upper_bound : forall fixed outs rate chg chgr chgwit coins a,
+  request_ok outs chg chgr ->
+  author generated_cfg fixed outs rate chg chgr chgwit coins = Success a ->
   a_est a = est_vsize_gen true (counts_of (map fst (a_inputs a))) outs chg /\
-  paid_fee a < fee_for rate (a_est a) + dust_threshold chg chgwit /\
-  (a_change a <> None -> paid_fee a = fee_for rate (a_est a)).
+  tx_fee a < fee_for rate (a_est a) + dust_threshold chgr chgwit /\
+  (a_change a <> None -> tx_fee a = fee_for rate (a_est a)).
 Proof.
-  intros outs rate chg chgwit coins a (Ho & Hv & Hc) H.
-  pose proof (success_fee_lower generated_cfg outs rate chg chgwit coins a H) as (He & _).
-  pose proof (success_fee_upper generated_cfg outs rate chg chgwit coins eq_refl Hc a H) as (H1 & H2).
+  intros fixed outs rate chg chgr chgwit coins a (Ho & Hv & Hc & Hr0 & Hr1) H.
+  rewrite (success_tx_fee generated_cfg fixed outs rate chg chgr chgwit coins a H).
+  pose proof (success_fee_lower generated_cfg fixed outs rate chg chgr chgwit coins a H) as (He & _).
+  pose proof (success_fee_upper generated_cfg fixed outs rate chg chgr chgwit coins eq_refl Hr0 a H eq_refl) as (H1 & H2).
   rewrite (est_size_vcc generated_cfg outs chg _ eq_refl) in He.
   split; [exact He|split; assumption].
 Qed.
 Print Assumptions C07_fee_upper_bound.
 
 (** A change output is never zero and never dust. *)
-Theorem C07_change_never_dust : forall outs rate chg chgwit coins a c,
-  request_ok outs chg ->
-  author generated_cfg outs rate chg chgwit coins = Success a ->
+Theorem C07_change_never_dust : forall fixed outs rate chg chgr chgwit coins a c,
+  request_ok outs chg chgr ->
+  author generated_cfg fixed outs rate chg chgr chgwit coins = Success a ->
   a_change a = Some c ->
-  0 < c /\ is_dust c chg chgwit default_relay_fee_per_kb = false /\ dust_threshold chg chgwit <= c.
+  0 < c /\ is_dust c chgr chgwit default_relay_fee_per_kb = false /\ dust_threshold chgr chgwit <= c.
 Proof.
-  intros outs rate chg chgwit coins a c (Ho & Hv & Hc) H.
-  exact (success_change generated_cfg outs rate chg chgwit coins eq_refl Hc a H c).
+  intros fixed outs rate chg chgr chgwit coins a c (Ho & Hv & Hc & Hr0 & Hr1) H.
+  exact (success_change generated_cfg fixed outs rate chg chgr chgwit coins eq_refl Hr0 a H c).
 Qed.
 Print Assumptions C07_change_never_dust.
 
-(** Insufficient funds is reported only when no prefix of the offered
-    arrangement - in particular not all the coins together - covers the
-    outputs plus the fee required for the transaction spending that prefix. *)
-Theorem C07_insufficient_funds : forall outs rate chg chgwit coins r,
-  request_ok outs chg -> default_relay_fee_per_kb <= rate ->
-  author generated_cfg outs rate chg chgwit coins = InsufficientFunds r ->
+(** Insufficient funds is reported only when the offered coins together do not
+    cover the outputs plus the fee required for the transaction spending all of
+    them; under automatic selection no prefix of the offered arrangement covers
+    the outputs plus the fee required for spending that prefix. *)
+Theorem C07_insufficient_funds : forall fixed outs rate chg chgr chgwit coins r,
+  request_ok outs chg chgr -> default_relay_fee_per_kb <= rate ->
+  author generated_cfg fixed outs rate chg chgr chgwit coins = InsufficientFunds r ->
   sum_coins coins < sum_values outs
      + fee_for rate (est_vsize_gen true (counts_of (map fst coins)) outs chg) /\
-  forall Q q, coins = Q ++ q ->
-    sum_coins Q < sum_values outs + fee_for rate (est_vsize_gen true (counts_of (map fst Q)) outs chg).
+  (fixed = false -> forall Q q, coins = Q ++ q ->
+    sum_coins Q < sum_values outs + fee_for rate (est_vsize_gen true (counts_of (map fst Q)) outs chg)).
 Proof.
-  intros outs rate chg chgwit coins r (Ho & Hv & Hc) Hr H. split.
+  intros fixed outs rate chg chgr chgwit coins r (Ho & Hv & Hc & Hr0 & Hr1) Hr H. split.
   - rewrite <- (est_size_vcc generated_cfg outs chg _ eq_refl).
-    exact (author_insufficient generated_cfg outs rate chg chgwit coins eq_refl Ho Hv Hc r eq_refl Hr H).
-  - intros Q q HQ. rewrite <- (est_size_vcc generated_cfg outs chg _ eq_refl).
-    exact (author_insufficient_no_prefix generated_cfg outs rate chg chgwit coins eq_refl Ho Hv Hc r eq_refl Hr H Q q HQ).
+    exact (author_insufficient generated_cfg fixed outs rate chg chgr chgwit coins eq_refl Ho Hv Hc r eq_refl Hr H).
+  - intros -> Q q HQ. rewrite <- (est_size_vcc generated_cfg outs chg _ eq_refl).
+    exact (author_insufficient_no_prefix generated_cfg outs rate chg chgr chgwit coins eq_refl Ho Hv Hc r eq_refl Hr H Q q HQ).
 Qed.
 Print Assumptions C07_insufficient_funds.
 
+(** ** The wallet-level function: change source + authoring loop +
+       RandomizeChangePosition, for every coin list, every requested output
+       list, every rate, every change address type, either input source and
+       every random draw *)
+
+(** Every requested output is present exactly once with its amount and script
+    length (the outputs are a permutation of the requested ones plus the
+    change), the change output - with the length of the script the change
+    source really produces - sits at ChangeIndex. *)
+Theorem C07_wallet_outputs_once : forall fixed randomizes outs rate k coins rnd a,
+  wrequest_ok outs ->
+  wallet_author fixed randomizes outs rate k coins rnd = Success a ->
+  match a_change a with
+  | Some c => Permutation (a_outs a) (outs ++ [mkOut c (change_real k)]) /\
+              exists r, a_change_index a = Some r /\ nth_error (a_outs a) r = Some (mkOut c (change_real k))
+  | None => a_outs a = outs /\ a_change_index a = None
+  end.
+Proof.
+  intros fixed randomizes outs rate k coins rnd a _ H.
+  exact (wallet_outputs fixed randomizes outs rate k coins rnd eq_refl eq_refl a H).
+Qed.
+Print Assumptions C07_wallet_outputs_once.
+
+(** The inputs are a prefix of the arrangement (the whole explicit selection);
+    the total the input source accumulated is the sum of their values; the
+    values of the coins spent total exactly the outputs plus the fee; the fee is
+    the required fee of the worst-case estimate when there is change, at least
+    that otherwise. *)
+Theorem C07_wallet_value_conserved : forall fixed randomizes outs rate k coins rnd a,
+  wrequest_ok outs ->
+  wallet_author fixed randomizes outs rate k coins rnd = Success a ->
+  ((exists rest, coins = a_inputs a ++ rest) /\ a_total_in a = sum_coins (a_inputs a) /\
+   (fixed = true -> a_inputs a = coins)) /\
+  sum_coins (a_inputs a) = sum_values (a_outs a) + tx_fee a /\
+  sum_values (a_outs a) = sum_values outs + match a_change a with Some c => c | None => 0 end /\
+  a_req_fee a = fee_for rate (a_est a) /\
+  match a_change a with
+  | Some _ => tx_fee a = a_req_fee a
+  | None => a_req_fee a <= tx_fee a
+  end.
+Proof.
+  intros fixed randomizes outs rate k coins rnd a _ H. split.
+  - exact (wallet_inputs fixed randomizes outs rate k coins rnd eq_refl eq_refl a H).
+  - exact (wallet_conservation fixed randomizes outs rate k coins rnd eq_refl eq_refl a H).
+Qed.
+Print Assumptions C07_wallet_value_conserved.
+
+(** The fee of the wallet-authored transaction is no lower than the requested
+    rate applied to its real signed virtual size. *)
+Theorem C07_wallet_fee_covers_real_size : forall fixed randomizes outs rate k coins rnd a sigs,
+  wrequest_ok outs -> default_relay_fee_per_kb <= rate ->
+  wallet_author fixed randomizes outs rate k coins rnd = Success a ->
+  length sigs = length (a_inputs a) ->
+  admissible p2pkh_covers_uncompressed (mk_sinputs (map fst (a_inputs a)) sigs) ->
+  fee_for rate (real_vsize (mk_sinputs (map fst (a_inputs a)) sigs) (a_outs a)) <= tx_fee a.
+Proof.
+  intros fixed randomizes outs rate k coins rnd a sigs (Ho & Hv) Hr H Hl Ha.
+  exact (wallet_fee_covers_real fixed randomizes outs rate k coins rnd eq_refl eq_refl Ho a H
+           p2pkh_covers_uncompressed sigs eq_refl eq_refl Hr Hl Ha).
+Qed.
+Print Assumptions C07_wallet_fee_covers_real_size.
+
+(** ... and no higher than the rate applied to the worst-case estimate plus one
+    dust threshold of the change script. *)
+Theorem C07_wallet_fee_upper_bound : forall fixed randomizes outs rate k coins rnd a,
+  wrequest_ok outs ->
+  wallet_author fixed randomizes outs rate k coins rnd = Success a ->
+  tx_fee a < fee_for rate (a_est a) + dust_threshold (change_real k) (change_wit k) /\
+  (a_change a <> None -> tx_fee a = fee_for rate (a_est a)).
+Proof.
+  intros fixed randomizes outs rate k coins rnd a _ H.
+  exact (wallet_fee_upper fixed randomizes outs rate k coins rnd eq_refl eq_refl a H eq_refl).
+Qed.
+Print Assumptions C07_wallet_fee_upper_bound.
+
+(** The change output is never zero and never dust; with non-negative
+    requested amounts no output is negative and the outputs never exceed the
+    coins spent. *)
+Theorem C07_wallet_change_and_amounts : forall fixed randomizes outs rate k coins rnd a,
+  wrequest_ok outs ->
+  wallet_author fixed randomizes outs rate k coins rnd = Success a ->
+  (forall c, a_change a = Some c -> 0 < c /\ dust_threshold (change_real k) (change_wit k) <= c) /\
+  (Forall (fun o => 0 <= out_value o) outs ->
+   Forall (fun o => 0 <= out_value o) (a_outs a) /\ sum_values (a_outs a) <= sum_coins (a_inputs a)).
+Proof.
+  intros fixed randomizes outs rate k coins rnd a _ H. split.
+  - intros c Hc. exact (wallet_change fixed randomizes outs rate k coins rnd eq_refl eq_refl a H c Hc).
+  - exact (wallet_amounts fixed randomizes outs rate k coins rnd eq_refl eq_refl a H).
+Qed.
+Print Assumptions C07_wallet_change_and_amounts.
+
+(** The wallet-level function terminates, and reports insufficient funds only
+    when the offered coins do not cover the outputs plus the required fee. *)
+Theorem C07_wallet_insufficient_funds : forall fixed randomizes outs rate k coins rnd,
+  wrequest_ok outs -> default_relay_fee_per_kb <= rate ->
+  wallet_author fixed randomizes outs rate k coins rnd <> OutOfFuel /\
+  forall r, wallet_author fixed randomizes outs rate k coins rnd = InsufficientFunds r ->
+    sum_coins coins < sum_values outs
+       + fee_for rate (est_vsize_gen true (counts_of (map fst coins)) outs (change_decl k)).
+Proof.
+  intros fixed randomizes outs rate k coins rnd (Ho & Hv) Hr.
+  pose proof (change_real_pos k) as Hp. pose proof (change_sizes_cover_spec eq_refl k) as Hk.
+  assert (Hreq : request_ok outs (change_decl k) (change_real k)) by (unfold request_ok; repeat split; try assumption; lia).
+  assert (H0 : 0 <= rate) by (pose proof (consts_sane_relay eq_refl); lia).
+  split.
+  - intros F. apply wallet_author_fuel in F.
+    exact (proj1 (C07_terminates fixed outs rate _ _ (change_wit k) coins Hreq H0) F).
+  - intros r H. apply wallet_author_insufficient in H.
+    exact (proj1 (C07_insufficient_funds fixed outs rate _ _ (change_wit k) coins r Hreq Hr H)).
+Qed.
+Print Assumptions C07_wallet_insufficient_funds.
+
 (** ** Non-vacuity and the witnesses kept for the record *)
+
+(** The witnesses with exact numbers are computed with the constants of the
+    tree they were found on; they are stated under that premise, so that a
+    source whose constants differ (a more conservative size, say) keeps this
+    file compiling - the theorems above need inequalities only. *)
+Definition consts_as_recorded : bool :=
+  (est_in_p2pkh =? 149) && (est_in_p2wpkh =? 41) && (est_in_p2tr =? 41) && (est_in_nested =? 64)
+  && (est_ww_marker =? 2) && (est_ww_p2wpkh =? 109) && (est_ww_p2tr =? 67) && (est_ww_nested =? 109)
+  && (witness_round_add =? 3) && (fee_divisor =? 1000) && (default_relay_fee_per_kb =? 1000)
+  && (change_size_pubkeyhash =? 25) && (change_size_nested_witness_pubkey =? 23)
+  && (change_size_witness_pubkey =? 22) && (change_size_taproot_pubkey =? 34).
+
+Ltac witness := vm_compute; let H := fresh in intros H;
+  first [discriminate H | (repeat split; discriminate) | repeat split].
 
 Definition outs252 : list txout := repeat (mkOut 1000 22) 252.
 
@@ -157,57 +317,89 @@ Definition outs252 : list txout := repeat (mkOut 1000 22) 252.
     P2WPKH coin, relay floor: success with change, and the fee covers the real
     size for a 71-byte signature. *)
 Example C07_nonvacuous_boundary :
-  match author generated_cfg outs252 1000 22 true [(P2WPKH, 1000000)] with
+  match author generated_cfg false outs252 1000 22 22 true [(P2WPKH, 1000000)] with
   | Success a =>
       a_change a = Some (1000000 - 252000 - a_req_fee a) /\ length (a_outs a) = 253%nat /\
-      real_vsize [(P2WPKH, 71)] (a_outs a) <= a_est a /\
-      fee_for 1000 (real_vsize [(P2WPKH, 71)] (a_outs a)) <= paid_fee a
+      real_vsize [mkSin P2WPKH 71 33] (a_outs a) <= a_est a /\
+      fee_for 1000 (real_vsize [mkSin P2WPKH 71 33] (a_outs a)) <= tx_fee a
   | _ => False
   end.
 Proof. vm_compute. repeat split; discriminate. Qed.
 
-(** Several rounds, mixed kinds, dust remainder given to the fee; and
-    insufficient funds one satoshi below. *)
-Example C07_nonvacuous_rounds :
-  (match author generated_cfg [mkOut 5000 25] 2000 22 true [(P2PKH, 5300); (P2TR, 500); (NP2WPKH, 100)] with
+(** Several rounds over the accumulating input source, mixed kinds, dust
+    remainder given to the fee; and insufficient funds one satoshi below. *)
+Example C07_nonvacuous_rounds : consts_as_recorded = true ->
+  (match author generated_cfg false [mkOut 5000 25] 2000 22 22 true [(P2PKH, 5300); (P2TR, 500); (NP2WPKH, 100)] with
    | Success a => a_rounds a = 2%nat /\ length (a_inputs a) = 2%nat /\ a_change a = None
-                  /\ paid_fee a = 800 /\ a_req_fee a = 566 /\ dust_threshold 22 true = 294
+                  /\ a_total_in a = 5800 /\ tx_fee a = 800 /\ a_req_fee a = 566 /\ dust_threshold 22 true = 294
    | _ => False
    end) /\
-  author generated_cfg [mkOut 5000 25] 2000 22 true [(P2PKH, 5300); (P2TR, 200); (NP2WPKH, 1)]
+  author generated_cfg false [mkOut 5000 25] 2000 22 22 true [(P2PKH, 5300); (P2TR, 200); (NP2WPKH, 1)]
     = InsufficientFunds 3.
+Proof. witness. Qed.
+
+(** The wallet-level function: an explicit selection of three coins is spent
+    whole although the first would do; the draw 0 moves the P2TR change output
+    to the front and the requested payment stays intact. *)
+Example C07_nonvacuous_wallet :
+  match wallet_author true true [mkOut 5000 25; mkOut 7000 22] 1000 ChP2TR
+          [(P2WPKH, 40000); (P2PKH, 3000); (P2TR, 2000)] 3 with
+  | Success a => length (a_inputs a) = 3%nat /\ a_change_index a = Some 0%nat /\
+                 a_outs a = [mkOut (45000 - 12000 - a_req_fee a) 34; mkOut 7000 22; mkOut 5000 25] /\
+                 sum_coins (a_inputs a) = sum_values (a_outs a) + a_req_fee a
+  | _ => False
+  end.
 Proof. vm_compute. repeat split. Qed.
 
 (** Witness at the pinned commit, defect 1 (compact-size over [len(txOuts)]):
     the estimate is 2 bytes below the real size and the fee is below the rate. *)
-Example C07_refuted_at_pinned_varint :
-  match author pinned_cfg outs252 1000 22 true [(P2WPKH, 1000000)] with
+Example C07_refuted_at_pinned_varint : consts_as_recorded = true ->
+  match author pinned_cfg false outs252 1000 22 22 true [(P2WPKH, 1000000)] with
   | Success a =>
-      a_est a + 2 = real_vsize [(P2WPKH, 71)] (a_outs a) /\
-      paid_fee a < fee_for 1000 (real_vsize [(P2WPKH, 71)] (a_outs a))
+      a_est a + 2 = real_vsize [mkSin P2WPKH 71 33] (a_outs a) /\
+      tx_fee a < fee_for 1000 (real_vsize [mkSin P2WPKH 71 33] (a_outs a))
   | _ => False
   end.
-Proof. vm_compute. repeat split. Qed.
+Proof. witness. Qed.
 
 (** Witness at the pinned commit, defect 2 (first guess = one P2WPKH input):
     a single P2TR coin that covers the outputs plus its own required fee is
     reported as insufficient funds; with the smallest guess it is spent. *)
-Example C07_refuted_at_pinned_init_guess :
-  author pinned_cfg [] 52583 34 true [(P2TR, 6054)] = InsufficientFunds 1 /\
+Example C07_refuted_at_pinned_init_guess : consts_as_recorded = true ->
+  author pinned_cfg false [] 52583 34 34 true [(P2TR, 6054)] = InsufficientFunds 1 /\
   0 + fee_for 52583 (est_vsize_gen true (counts_of [P2TR]) [] 34) <= 6054 /\
   init_minimal pinned_cfg = false /\
-  match author fixed_cfg [] 52583 34 true [(P2TR, 6054)] with
-  | Success a => paid_fee a = 6054 /\ a_req_fee a = 5889
+  match author fixed_cfg false [] 52583 34 34 true [(P2TR, 6054)] with
+  | Success a => tx_fee a = 6054 /\ a_req_fee a = 5889
   | _ => False
   end.
-Proof. vm_compute. repeat split; discriminate. Qed.
+Proof. witness. Qed.
 
 (** Why the admissibility predicate asks for low-S (<= 71 byte) signatures on
     P2PKH inputs of a transaction that also has witness inputs: with 72-byte
     signatures on five P2PKH inputs the estimate is one byte short (every
     P2PKH input carries one uncounted byte of empty witness). *)
-Example C07_high_s_mixed_not_covered :
-  let ins := [(P2PKH, 72); (P2PKH, 72); (P2PKH, 72); (P2PKH, 72); (P2PKH, 72); (P2WPKH, 72)] in
-  est_vsize_gen true (counts_of (map fst ins)) [mkOut 1000 22] 22 + 1
+Example C07_high_s_mixed_not_covered : consts_as_recorded = true ->
+  let ins := [mkSin P2PKH 72 33; mkSin P2PKH 72 33; mkSin P2PKH 72 33; mkSin P2PKH 72 33; mkSin P2PKH 72 33;
+              mkSin P2WPKH 72 33] in
+  est_vsize_gen true (counts_of (map si_kind ins)) [mkOut 1000 22] 22 + 1
   = real_vsize ins [mkOut 1000 22; mkOut 600 22].
-Proof. vm_compute. reflexivity. Qed.
+Proof. witness. Qed.
+
+(** Why an UNCOMPRESSED key is outside the admissible inputs while the P2PKH
+    allotment does not cover it: one P2PKH coin of 100000 held by an
+    uncompressed key, one P2WPKH output of 60000, the relay floor - the signed
+    input is 32 bytes larger than estimated and the fee is below the rate
+    applied to the real size (replayed on the implementation by
+    corpus/C07/uncompressed_key_p2pkh.jsonl; known finding
+    fee_below_rate_uncompressed_key).  Stated under the premise so that a repair
+    (a P2PKH constant sized for 65-byte keys) keeps this file compiling. *)
+Example C07_uncompressed_key_refuted :
+  p2pkh_covers_uncompressed = false ->
+  match author generated_cfg false [mkOut 60000 22] 1000 22 22 true [(P2PKH, 100000)] with
+  | Success a =>
+      a_est a + 30 <= real_vsize [mkSin P2PKH 70 65] (a_outs a) /\
+      tx_fee a < fee_for 1000 (real_vsize [mkSin P2PKH 70 65] (a_outs a))
+  | _ => False
+  end.
+Proof. witness. Qed.
